@@ -485,6 +485,29 @@ func runReplay[C any](s *Sub, chk func(C) []Finding) bool {
 }
 
 // ---------------------------------------------------------------------------
+// trace mode: when a test process died without a verdict (stack exhaustion,
+// runtime fatal error, out of memory) the driver re-runs it with VERIF_TRACE=1;
+// each case is persisted before it is executed, so the last persisted case is
+// the one that killed the process and becomes the replay file.
+
+var tracing = os.Getenv("VERIF_TRACE") != ""
+
+func (s *Sub) trace(c any) {
+	if !tracing {
+		return
+	}
+	si, _ := Shard()
+	_, cb := hashJSON(c)
+	rec := map[string]any{
+		"property": s.Prop, "check": s.Name, "test": s.Test, "package": s.Prop,
+		"findings": []Finding{{Subject: "process", Kind: "process-death", Msg: "the test process died while executing this case"}},
+		"case":     json.RawMessage(cb), "seed": Seed(), "tier": Tier(),
+	}
+	b, _ := json.Marshal(rec)
+	os.WriteFile(filepath.Join(runDir(), fmt.Sprintf("trace-%s-%d.json", sanitize(s.Name), si)), b, 0o644)
+}
+
+// ---------------------------------------------------------------------------
 // runners
 
 func mix(a, b uint64) uint64 {
@@ -523,6 +546,7 @@ func Rapid[C any](s *Sub, n int, gen func(*rapid.T) C, chk func(C) []Finding, no
 	}
 	rapid.Check(s.t, func(rt *rapid.T) {
 		c := gen(rt)
+		s.trace(c)
 		fs := Safe("panic", func() []Finding { return chk(c) })
 		s.Eval(c, nontriv == nil || nontriv(c))
 		if un := s.Report(c, fs); len(un) > 0 {
@@ -552,6 +576,7 @@ func Enum[C any](s *Sub, each func(yield func(C)), chk func(C) []Finding, nontri
 		if sn > 1 && (idx-1)%sn != si {
 			return
 		}
+		s.trace(c)
 		fs := Safe("panic", func() []Finding { return chk(c) })
 		nt := nontriv == nil || nontriv(c)
 		if len(fs) == 0 {
